@@ -33,6 +33,8 @@ Section Outcome.
 
   Definition oseg (i : nat) : smsg :=
     {| sm_uid := uid i; sm_cmd := 4; sm_seq := sq i; sm_log := log; sm_sar := (r, Z.of_nat i + 1, Z.of_nat k) |}.
+  (* the key of the message's status cell: its reference combined with the sequence number of its first segment *)
+  Definition K : Z := skey r (sq 0%nat).
   Definition oidx : list nat := seq 0 k.
   Definition ostatus (q : nat -> qphase) : dict Z := map (fun i => (Z.of_nat i + 1, qcode (q i))) oidx.
   Definition qupd (q : nat -> qphase) (i : nat) (p : qphase) : nat -> qphase := fun j => if Nat.eqb j i then p else q j.
@@ -96,7 +98,7 @@ Section Outcome.
   Qed.
 
   Lemma cumulated_open_o c cell q j : (j < k)%nat -> processed (q j) = false -> ss_status cell = ostatus q ->
-    cumulated c r cell = (c, STATUS_SENDING).
+    cumulated c K cell = (c, STATUS_SENDING).
   Proof.
     intros Hj Hnp Hs. destruct outcome_constants as (_ & _ & _ & _ & CS & CF & CE & CT & _).
     unfold cumulated. rewrite Hs, ostatus_values. destruct (codes_nonempty q) as (v & vs & El). rewrite El.
@@ -108,7 +110,7 @@ Section Outcome.
   Qed.
 
   Lemma cumulated_done_o c cell q : all_processed q = true -> ss_status cell = ostatus q ->
-    cumulated c r cell = (if final_code q =? STATUS_SENT then c else with_stat c (ddel r (c_stat c)), final_code q).
+    cumulated c K cell = (if final_code q =? STATUS_SENT then c else with_stat c (ddel K (c_stat c)), final_code q).
   Proof.
     intros Hall Hs. destruct outcome_constants as (_ & _ & _ & _ & CS & CF & CE & CT & _).
     unfold all_processed in Hall. rewrite forallb_forall in Hall.
@@ -147,17 +149,17 @@ Section Outcome.
     /\ (forall r', lr = Some r' -> dget (rs_uid r') rlog = Some log)
     /\ (forall r', lr = Some r' -> rs_cmd r' = SmppCommand_SUBMIT_SM_RESP \/ rs_cmd r' = SmppCommand_GENERIC_NACK).
 
-  Definition QI (s : hstate) (q : nat -> qphase) (lr : option resp) : Prop :=
+  Definition QI0 (s : hstate) (q : nat -> qphase) (lr : option resp) : Prop :=
     (forall i, (i < k)%nat ->
        match q i with
        | QSending => exists e, dget (sq i) (c_store (h_corr s)) = Some e /\ e_msg e = oseg i
        | _ => dget (sq i) (c_store (h_corr s)) = None
        end)
     /\ (forall i, (i < k)%nat ->
-         dget (sq i) (c_seg (h_corr s)) = match q i with QSending | QOk | QFail => Some (r, Z.of_nat i + 1) | _ => None end)
+         dget (sq i) (c_seg (h_corr s)) = match q i with QSending | QOk | QFail => Some (K, Z.of_nat i + 1) | _ => None end)
     /\ (if forallb (fun i => is_qnot (q i)) oidx then True
-        else if all_processed q && negb (final_code q =? STATUS_SENT) then dget r (c_stat (h_corr s)) = None
-        else exists cell, dget r (c_stat (h_corr s)) = Some cell /\ ss_status cell = ostatus q
+        else if all_processed q && negb (final_code q =? STATUS_SENT) then dget K (c_stat (h_corr s)) = None
+        else exists cell, dget K (c_stat (h_corr s)) = Some cell /\ ss_status cell = ostatus q
                           /\ ss_orig cell = oseg 0 /\ ss_last_resp cell = lr)
     /\ lr_okq q lr (h_rlog s)
     /\ NoDup (dkeys (c_seg (h_corr s))) /\ NoDup (dkeys (c_stat (h_corr s))) /\ NoDup (dkeys (c_store (h_corr s)))
@@ -170,15 +172,13 @@ Section Outcome.
   Ltac other_seg q' i j Hne := unfold q'; rewrite (qupd_other _ i _ j Hne).
 
   (* segment i is stored after its write; the first segment starts a new status cell whatever the store holds *)
-  Lemma o_put_step s q lr i :
-    QI s q lr -> (i < k)%nat -> q i = QNot -> (i <> 0%nat -> q 0%nat <> QNot) ->
-    exists s', hstep s (HPut (oseg i)) = (s', []) /\ QI s' (qupd q i QSending) lr.
+  Lemma o_put_step0 s q lr i :
+    QI0 s q lr -> (i < k)%nat -> q i = QNot -> (i <> 0%nat -> q 0%nat <> QNot) ->
+    (i <> 0%nat -> dget r (c_cur (h_corr s)) = Some K) ->
+    exists s', hstep s (HPut (oseg i)) = (s', []) /\ QI0 s' (qupd q i QSending) lr /\ dget r (c_cur (h_corr s')) = Some K.
   Proof.
-    intros (Ha & Hb & Hc & Hl & N1 & N2 & N3 & Hff) Hi Hp Hord.
+    intros (Ha & Hb & Hc & Hl & N1 & N2 & N3 & Hff) Hi Hp Hord Hcur.
     cbn [hstep]. eexists. split; [reflexivity|].
-    unfold put_store. rewrite oseg_is_submit. cbn [oseg sm_sar sm_seq].
-    replace (0 <? Z.of_nat k) with true by (symmetry; apply Z.ltb_lt; lia).
-    cbn [with_store with_seg with_stat c_store c_seg c_stat].
     set (q' := qupd q i QSending).
     assert (all_processed q = false) as Fp by (apply (oforallb_false _ i Hi); rewrite Hp; reflexivity).
     assert (forallb (fun j => is_qnot (q' j)) oidx = false) as Fn' by (apply (oforallb_false _ i Hi); unfold q'; rewrite qupd_same; reflexivity).
@@ -187,22 +187,29 @@ Section Outcome.
     { intros j Hj. unfold q'. destruct (Nat.eq_dec j i) as [->|Hne]; [rewrite qupd_same, Hp; reflexivity|rewrite qupd_other by exact Hne; reflexivity]. }
     assert (forall j, (j < k)%nat -> (q' j = QFail <-> q j = QFail)) as Hfl.
     { intros j Hj. unfold q'. destruct (Nat.eq_dec j i) as [->|Hne]; [rewrite qupd_same, Hp; split; discriminate|rewrite qupd_other by exact Hne; reflexivity]. }
-    assert (exists cell', (match (if 1 <? Z.of_nat i + 1 then dget r (c_stat (h_corr s)) else None) with
-                           | Some ss => ss
-                           | None => {| ss_status := map (fun j => (Z.of_nat j, STATUS_SENDING)) (seq 1 (Z.to_nat (Z.of_nat k)));
-                                        ss_orig := oseg i; ss_last_resp := None; ss_last_rcpt := None |}
-                           end) = cell' /\ ss_status cell' = ostatus q /\ ss_orig cell' = oseg 0 /\ ss_last_resp cell' = lr) as (cell' & Ecell & Hst & Hor & Hlr).
+    assert (exists cell', ss_status cell' = ostatus q /\ ss_orig cell' = oseg 0 /\ ss_last_resp cell' = lr /\
+              exists cur', dget r cur' = Some K /\
+              put_store (h_corr s) 0%Q (oseg i) (h_next s) =
+              {| c_store := dset (c_store (h_corr s)) (sq i) {| e_at := 0%Q; e_msg := oseg i; e_id := h_next s |};
+                 c_seg := dset (c_seg (h_corr s)) (sq i) (K, Z.of_nat i + 1);
+                 c_stat := dset (c_stat (h_corr s)) K (set_status cell' (Z.of_nat i + 1) STATUS_SENDING);
+                 c_cur := cur'; c_ttl := c_ttl (h_corr s) |}) as (cell' & Hst & Hor & Hlr & cur' & Hcur' & Eput).
     { destruct (Nat.eq_dec i 0) as [E0|N0].
-      - subst i. change (1 <? Z.of_nat 0 + 1) with false. cbv iota.
-        eexists. split; [reflexivity|]. cbn [ss_status ss_orig ss_last_resp]. rewrite Nat2Z.id.
+      - subst i. exists (fresh_cell (oseg 0%nat) (Z.of_nat k)). unfold fresh_cell. cbn [ss_status ss_orig ss_last_resp]. rewrite Nat2Z.id.
         split; [apply ofresh; intros j Hj; apply (Hff Hp j Hj)|]. split; [reflexivity|].
-        destruct Hl as (Hl1 & _). symmetry. apply Hl1. intros j Hj. rewrite (Hff Hp j Hj). reflexivity.
-      - replace (1 <? Z.of_nat i + 1) with true by (symmetry; apply Z.ltb_lt; lia). cbv iota.
-        assert (forallb (fun j => is_qnot (q j)) oidx = false) as Fn.
+        split; [destruct Hl as (Hl1 & _); symmetry; apply Hl1; intros j Hj; rewrite (Hff Hp j Hj); reflexivity|].
+        exists (dset (c_cur (h_corr s)) r K). split; [apply dget_dset_same|].
+        rewrite (put_store_first (h_corr s) 0%Q (oseg 0%nat) (h_next s) r (Z.of_nat 0 + 1) (Z.of_nat k) (oseg_is_submit 0%nat) eq_refl ltac:(lia) ltac:(lia)).
+        unfold fresh_cell. rewrite Nat2Z.id. reflexivity.
+      - assert (forallb (fun j => is_qnot (q j)) oidx = false) as Fn.
         { apply (oforallb_false _ 0%nat ltac:(lia)). specialize (Hord N0). destruct (q 0%nat); try reflexivity. contradiction. }
-        rewrite Fn, Fp in Hc. cbn [andb] in Hc. destruct Hc as (cell & -> & H1 & H2 & H3). exists cell. auto. }
-    fold (oseg i). change {| sm_uid := uid i; sm_cmd := 4; sm_seq := sq i; sm_log := log; sm_sar := (r, Z.of_nat i + 1, Z.of_nat k) |} with (oseg i) in *.
-    rewrite Ecell. unfold QI. cbn [h_corr h_rlog with_store with_seg with_stat c_store c_seg c_stat].
+        rewrite Fn, Fp in Hc. cbn [andb] in Hc. destruct Hc as (cell & Hcell & H1 & H2 & H3). exists cell.
+        split; [exact H1|]. split; [exact H2|]. split; [exact H3|].
+        exists (c_cur (h_corr s)). split; [exact (Hcur N0)|].
+        rewrite (put_store_join (h_corr s) 0%Q (oseg i) (h_next s) r (Z.of_nat i + 1) (Z.of_nat k) K cell (oseg_is_submit i) eq_refl ltac:(lia) ltac:(lia) (Hcur N0) Hcell).
+        reflexivity. }
+    rewrite Eput. split; [|cbn [h_corr c_cur]; exact Hcur'].
+    unfold QI0. cbn [h_corr h_rlog c_store c_seg c_stat].
     split.
     { intros j Hj. unfold q'. destruct (Nat.eq_dec j i) as [->|Hne].
       - rewrite qupd_same. eexists. split; [apply dget_dset_same|reflexivity].
@@ -256,12 +263,12 @@ Section Outcome.
     else [HRaw].
 
   (* the SMSC answers segment i: accepted, rejected or generic_nack *)
-  Lemma o_resp_step s q lr i r' mid :
-    QI s q lr -> (i < k)%nat -> q i = QSending -> rs_seq r' = sq i ->
+  Lemma o_resp_step0 s q lr i r' mid :
+    QI0 s q lr -> (i < k)%nat -> q i = QSending -> rs_seq r' = sq i ->
     (rs_cmd r' = SmppCommand_SUBMIT_SM_RESP \/ rs_cmd r' = SmppCommand_GENERIC_NACK) ->
     let q' := qupd q i (if is_fail r' then QFail else QOk) in
     let lr' := lr_after lr r' in
-    exists s', handle_response s r' mid = (s', resp_out q' lr') /\ QI s' q' lr'.
+    exists s', handle_response s r' mid = (s', resp_out q' lr') /\ QI0 s' q' lr'.
   Proof.
     intros (Ha & Hb & Hc & Hl & N1 & N2 & N3 & Hff) Hi Hp Hseq Hcmd q' lr'.
     destruct outcome_constants as (C4 & CR & CN & C0 & CS & CF & CE & CT & HmR & HmN & Hlk).
@@ -306,19 +313,19 @@ Section Outcome.
     (* run the handler *)
     assert (is_submit (e_msg e) = true) as Hsub by (rewrite Hem; apply oseg_is_submit).
     assert (dget (rs_seq r') (c_store (h_corr s)) = Some e) as Hge' by (rewrite Hseq; exact Hge).
-    assert (dget (rs_seq r') (c_seg (h_corr s)) = Some (r, Z.of_nat i + 1)) as Hbi' by (rewrite Hseq; exact Hbi).
-    pose proof (get_pop_segment (h_corr s) r' e r (Z.of_nat i + 1) cell Hge' Hsub Hbi' Hcell) as Hgp. fold cell' in Hgp.
-    set (c1 := with_stat (with_store (h_corr s) (ddel (rs_seq r') (c_store (h_corr s)))) (dset (c_stat (h_corr s)) r cell')) in *.
-    assert (get_segmented c1 (rs_seq r') false = (fst (cumulated c1 r cell'), Some cell', snd (cumulated c1 r cell'))) as Hgs.
+    assert (dget (rs_seq r') (c_seg (h_corr s)) = Some (K, Z.of_nat i + 1)) as Hbi' by (rewrite Hseq; exact Hbi).
+    pose proof (get_pop_segment (h_corr s) r' e K (Z.of_nat i + 1) cell Hge' Hsub Hbi' Hcell) as Hgp. fold cell' in Hgp.
+    set (c1 := with_stat (with_store (h_corr s) (ddel (rs_seq r') (c_store (h_corr s)))) (dset (c_stat (h_corr s)) K cell')) in *.
+    assert (get_segmented c1 (rs_seq r') false = (fst (cumulated c1 K cell'), Some cell', snd (cumulated c1 K cell'))) as Hgs.
     { unfold get_segmented. cbn [c1 with_stat with_store c_seg c_stat]. rewrite Hbi', dget_dset_same.
-      destruct (cumulated _ r cell'). reflexivity. }
+      destruct (cumulated _ K cell'). reflexivity. }
     (* the state after the handler, whatever the branch *)
     assert (forall d n t nt,
-              QI {| h_corr := fst (cumulated c1 r cell'); h_deliv := d; h_next := n; h_thr := t; h_nonthr := nt;
+              QI0 {| h_corr := fst (cumulated c1 K cell'); h_deliv := d; h_next := n; h_thr := t; h_nonthr := nt;
                     h_rlog := dset (h_rlog s) (rs_uid r') log |} q' lr') as Hstate.
-    { intros d n t nt. unfold QI. cbn [h_corr h_rlog].
-      assert (c_store (fst (cumulated c1 r cell')) = ddel (sq i) (c_store (h_corr s))
-              /\ c_seg (fst (cumulated c1 r cell')) = c_seg (h_corr s)) as [Est Esg].
+    { intros d n t nt. unfold QI0. cbn [h_corr h_rlog].
+      assert (c_store (fst (cumulated c1 K cell')) = ddel (sq i) (c_store (h_corr s))
+              /\ c_seg (fst (cumulated c1 K cell')) = c_seg (h_corr s)) as [Est Esg].
       { unfold cumulated. destruct (map snd (ss_status cell')) as [|v vs]; [split; cbn [fst c1 with_stat with_store c_store c_seg]; rewrite ?Hseq; reflexivity|].
         destruct (_ || _); cbn [fst c1 with_stat with_store c_store c_seg]; rewrite ?Hseq; split; reflexivity. }
       rewrite Est, Esg.
@@ -349,7 +356,7 @@ Section Outcome.
       intros Hz j Hj. destruct (Nat.eq_dec 0 i) as [E0|N0]; [subst i; rewrite Hqi in Hz; destruct (is_fail r'); discriminate|].
       rewrite (Hoth 0%nat ltac:(lia) N0) in Hz. specialize (Hff Hz i Hi). rewrite Hp in Hff. discriminate. }
     (* the output *)
-    assert (snd (cumulated c1 r cell') = if all_processed q' then final_code q' else STATUS_SENDING) as Hcode.
+    assert (snd (cumulated c1 K cell') = if all_processed q' then final_code q' else STATUS_SENDING) as Hcode.
     { destruct (all_processed q') eqn:Fp'.
       - rewrite (cumulated_done_o c1 cell' q' Fp' Hst'). reflexivity.
       - unfold all_processed in Fp'. destruct (forallb_false_ex _ _ Fp') as (j & Hj & Hjp). apply In_oidx in Hj.
@@ -388,10 +395,10 @@ Section Outcome.
   Qed.
 
   (* the stored request of segment i times out *)
-  Lemma o_expire_step s q lr i :
-    QI s q lr -> (i < k)%nat -> q i = QSending ->
+  Lemma o_expire_step0 s q lr i :
+    QI0 s q lr -> (i < k)%nat -> q i = QSending ->
     let q' := qupd q i QExp in
-    exists s', hstep s (HExpire (sq i)) = (s', if all_processed q' then [HSendError log] else []) /\ QI s' q' lr.
+    exists s', hstep s (HExpire (sq i)) = (s', if all_processed q' then [HSendError log] else []) /\ QI0 s' q' lr.
   Proof.
     intros (Ha & Hb & Hc & Hl & N1 & N2 & N3 & Hff) Hi Hp q'.
     destruct outcome_constants as (C4 & CR & CN & C0 & CS & CF & CE & CT & HmR & HmN & Hlk).
@@ -413,7 +420,7 @@ Section Outcome.
     cbn [hstep]. unfold expire_one. rewrite Hge. unfold expired. rewrite Hem, oseg_is_submit. cbn [oseg sm_seq with_store c_seg c_stat with_seg]. rewrite Hbi.
     cbn [with_seg c_stat]. rewrite Hcell. fold cell'.
     set (c2 := with_stat (with_seg (with_store (h_corr s) (ddel (sq i) (c_store (h_corr s)))) (ddel (sq i) (c_seg (h_corr s))))
-                         (dset (c_stat (h_corr s)) r cell')).
+                         (dset (c_stat (h_corr s)) K cell')).
     assert (lr_okq q' lr (h_rlog s)) as Hl'.
     { destruct Hl as (Hl1 & Hl2 & Hl3 & Hl4 & Hl5 & Hl6).
       assert (forall j, (j < k)%nat -> answered (q' j) = answered (q j)) as Hans.
@@ -428,11 +435,11 @@ Section Outcome.
       - exact Hl5.
       - exact Hl6. }
     assert (forall cfin, c_store cfin = ddel (sq i) (c_store (h_corr s)) -> c_seg cfin = ddel (sq i) (c_seg (h_corr s)) ->
-              (if all_processed q' then dget r (c_stat cfin) = None
-               else exists cl, dget r (c_stat cfin) = Some cl /\ ss_status cl = ostatus q' /\ ss_orig cl = oseg 0 /\ ss_last_resp cl = lr) ->
+              (if all_processed q' then dget K (c_stat cfin) = None
+               else exists cl, dget K (c_stat cfin) = Some cl /\ ss_status cl = ostatus q' /\ ss_orig cl = oseg 0 /\ ss_last_resp cl = lr) ->
               NoDup (dkeys (c_stat cfin)) ->
-              QI (with_corr s cfin) q' lr) as Hfin.
-    { intros cfin Est Esg Hcl Hnd. unfold QI, with_corr. cbn [h_corr h_rlog]. rewrite Est, Esg.
+              QI0 (with_corr s cfin) q' lr) as Hfin.
+    { intros cfin Est Esg Hcl Hnd. unfold QI0, with_corr. cbn [h_corr h_rlog]. rewrite Est, Esg.
       split.
       { intros j Hj. destruct (Nat.eq_dec j i) as [->|Hne]; [rewrite Hqi; apply dget_ddel_same; exact N3|].
         rewrite (Hoth j Hj Hne). assert (sq j <> sq i) as Hk2 by (intros E; apply Hne; apply sq_inj; auto).
@@ -464,6 +471,57 @@ Section Outcome.
   Qed.
 
   (* ---- any admissible interleaving of the message's events ---- *)
+  (* ---- the invariant with the reference -> key map: while segments remain to be stored, the message being sent under
+     reference r is this one ---- *)
+  Definition QI (s : hstate) (q : nat -> qphase) (lr : option resp) : Prop :=
+    QI0 s q lr /\ (q 0%nat <> QNot -> (exists j, (j < k)%nat /\ q j = QNot) -> dget r (c_cur (h_corr s)) = Some K).
+
+  Lemma cur_kept (q q' : nat -> qphase) i p (c c' : dict Z) :
+    c' = c -> (i < k)%nat -> q i <> QNot -> p <> QNot -> q' = qupd q i p ->
+    (q 0%nat <> QNot -> (exists j, (j < k)%nat /\ q j = QNot) -> dget r c = Some K) ->
+    (q' 0%nat <> QNot -> (exists j, (j < k)%nat /\ q' j = QNot) -> dget r c' = Some K).
+  Proof.
+    intros -> Hi Hqi Hp -> Hcur H0 (j & Hj & Hpj).
+    destruct (Nat.eq_dec j i) as [->|Hne]; [rewrite qupd_same in Hpj; contradiction|].
+    rewrite qupd_other in Hpj by exact Hne. apply Hcur; [|exists j; split; assumption].
+    destruct (Nat.eq_dec 0 i) as [<-|N0]; [exact Hqi|]. rewrite qupd_other in H0 by exact N0. exact H0.
+  Qed.
+
+  Lemma o_put_step s q lr i :
+    QI s q lr -> (i < k)%nat -> q i = QNot -> (i <> 0%nat -> q 0%nat <> QNot) ->
+    exists s', hstep s (HPut (oseg i)) = (s', []) /\ QI s' (qupd q i QSending) lr.
+  Proof.
+    intros [HQ Hcur] Hi Hp Hord.
+    assert (i <> 0%nat -> dget r (c_cur (h_corr s)) = Some K) as Hc.
+    { intros N0. apply Hcur; [apply Hord; exact N0|]. exists i. split; assumption. }
+    destruct (o_put_step0 s q lr i HQ Hi Hp Hord Hc) as (s' & Hs & HQ' & Hcur').
+    exists s'. split; [exact Hs|]. split; [exact HQ'|]. intros _ _. exact Hcur'.
+  Qed.
+
+  Lemma o_resp_step s q lr i r' mid :
+    QI s q lr -> (i < k)%nat -> q i = QSending -> rs_seq r' = sq i ->
+    (rs_cmd r' = SmppCommand_SUBMIT_SM_RESP \/ rs_cmd r' = SmppCommand_GENERIC_NACK) ->
+    let q' := qupd q i (if is_fail r' then QFail else QOk) in
+    let lr' := lr_after lr r' in
+    exists s', handle_response s r' mid = (s', resp_out q' lr') /\ QI s' q' lr'.
+  Proof.
+    intros [HQ Hcur] Hi Hp Hseq Hcmd q' lr'. destruct (o_resp_step0 s q lr i r' mid HQ Hi Hp Hseq Hcmd) as (s' & Hs & HQ').
+    exists s'. split; [exact Hs|]. split; [exact HQ'|].
+    pose proof (response_cur s r' mid) as Hc. rewrite Hs in Hc. cbn [fst] in Hc.
+    apply (cur_kept q q' i (if is_fail r' then QFail else QOk) _ _ Hc Hi); [rewrite Hp; discriminate|destruct (is_fail r'); discriminate|reflexivity|exact Hcur].
+  Qed.
+
+  Lemma o_expire_step s q lr i :
+    QI s q lr -> (i < k)%nat -> q i = QSending ->
+    let q' := qupd q i QExp in
+    exists s', hstep s (HExpire (sq i)) = (s', if all_processed q' then [HSendError log] else []) /\ QI s' q' lr.
+  Proof.
+    intros [HQ Hcur] Hi Hp q'. destruct (o_expire_step0 s q lr i HQ Hi Hp) as (s' & Hs & HQ').
+    exists s'. split; [exact Hs|]. split; [exact HQ'|].
+    pose proof (expire_cur s (sq i)) as Hc. cbn [hstep] in Hs. rewrite Hs in Hc. cbn [fst] in Hc.
+    apply (cur_kept q q' i QExp _ _ Hc Hi); [rewrite Hp; discriminate|discriminate|reflexivity|exact Hcur].
+  Qed.
+
   Inductive oev := OPut (i : nat) | OResp (i : nat) (r' : resp) (mid : Z) | OExpire (i : nat).
 
   Definition oconc (g : oev) : hevent :=
@@ -515,7 +573,8 @@ Section Outcome.
 
   Lemma QI_init : QI hinit (fun _ => QNot) None.
   Proof.
-    unfold QI, hinit, corr_init. cbn [h_corr h_rlog c_store c_seg c_stat].
+    split; [|intros H; contradiction H; reflexivity].
+    unfold QI0, hinit, corr_init. cbn [h_corr h_rlog c_store c_seg c_stat].
     split; [intros i _; reflexivity|]. split; [intros i _; reflexivity|]. split.
     - assert (forallb (fun i : nat => is_qnot QNot) oidx = true) as -> by (apply forallb_forall; reflexivity). exact I.
     - split.
@@ -580,7 +639,7 @@ Section Outcome.
   Proof.
     intros HQ Hen. destruct (oafter q lr g) as [q' lr'] eqn:Eaf. intros s' HQ'.
     destruct outcome_constants as (C4 & CR & CN & C0 & CS & CF & CE & CT & _).
-    destruct HQ' as (_ & _ & _ & Hl' & _). destruct Hl' as (Hl1 & Hl2 & Hl3 & Hl4 & Hl5 & Hl6).
+    destruct HQ' as [(_ & _ & _ & Hl' & _) _]. destruct Hl' as (Hl1 & Hl2 & Hl3 & Hl4 & Hl5 & Hl6).
     unfold oexpected. rewrite Eaf.
     destruct g as [i|i r' mid|i]; cbn [oafter] in Eaf; injection Eaf as <- <-; cbn [oenabled] in Hen.
     - (* a put never completes the message *)
